@@ -123,6 +123,9 @@ type canon struct {
 	// inKey: containers on the way from a map down to the key being rendered for sorting; a
 	// key that (through an object) holds the map it belongs to would otherwise never end
 	inKey map[*V]bool
+	// sortOnly: this rendering is itself a sort key; maps inside it do not tell equal keys apart by their
+	// values (that would render every value again at every level of nesting)
+	sortOnly bool
 }
 
 // Canon renders the graph rooted at v.
@@ -134,7 +137,7 @@ func Canon(v *V, opt Options) string {
 
 // keyString renders a map key in a fresh label space (used for sorting only).
 func keyString(v *V, opt Options, inKey map[*V]bool) string {
-	c := &canon{opt: opt, labels: map[*V]int{}, inKey: inKey}
+	c := &canon{opt: opt, labels: map[*V]int{}, inKey: inKey, sortOnly: true}
 	c.walk(v)
 	return c.sb.String()
 }
@@ -261,6 +264,21 @@ func (c *canon) walk(v *V) {
 					c.inKey[v] = true
 					keys[i] = keyString(v.Elems[2*i], c.opt, c.inKey)
 					delete(c.inKey, v)
+				}
+				// keys of equal content (two objects with the same fields as keys) are told apart by their
+				// values, rendered for such keys only and not inside a rendering that is itself a sort key
+				if !c.sortOnly && !c.inKey[v] {
+					dup := map[string]int{}
+					for _, k := range keys {
+						dup[k]++
+					}
+					for i := 0; i < n; i++ {
+						if dup[keys[i]] > 1 {
+							c.inKey[v] = true
+							keys[i] += "\x00=>" + keyString(v.Elems[2*i+1], c.opt, c.inKey)
+							delete(c.inKey, v)
+						}
+					}
 				}
 				sort.SliceStable(idx, func(a, b int) bool { return keys[idx[a]] < keys[idx[b]] })
 			}
